@@ -114,3 +114,9 @@ CORPUS += [
         "                    acceptance_prob = min(torch.zeros_like(log_alpha), log_alpha).exp()\n                    accepted = (acceptance_prob > torch.rand(1)).item()\n                    if log_alpha >= 0.0:\n                        accepted = True\n",
         mode='text', benign=True),
 ]
+CORPUS += [
+    Mut('c15-benign-probability-one-accepted-without-a-draw', 'torchtree/inference/mcmc/mcmc.py', '',
+        "                    acceptance_prob = min(torch.zeros_like(log_alpha), log_alpha).exp()\n                    accepted = (acceptance_prob > torch.rand(1)).item()\n",
+        "                    acceptance_prob = min(torch.zeros_like(log_alpha), log_alpha).exp()\n                    accepted = (acceptance_prob > torch.rand(1)).item()\n                    if acceptance_prob >= 1.0:\n                        accepted = True\n",
+        mode='text', benign=True),
+]
